@@ -460,6 +460,36 @@ func stressRestOfAPI(g, c int, rng *rand.Rand) bool {
 		ok = false
 	}
 	sr.Release(nil)
+	// 7. a frame from a peer that is not this library: it announces transform ids (the encoder here never does), pads
+	// in the middle, repeats a section
+	ntr := 1 + (g+c)%3
+	info := []byte{0, byte(ntr)}
+	for k := 0; k < ntr; k++ {
+		info = append(info, byte(1+k+g))
+	}
+	info = append(info, 0x10, 0, 1, 0, byte(50+g), 0, 2, 'v', byte('0'+c%10)) // int {50+g: "v<c>"}
+	info = append(info, 0)                                                    // padding between sections
+	info = append(info, 0x01, 0, 1, 0, 1, 'k', 0, 1, byte('a'+g%26))          // str {"k": <g>}
+	for len(info)%4 != 0 {
+		info = append(info, 0)
+	}
+	fr := make([]byte, 14, 14+len(info)+3)
+	fr[4], fr[5] = 0x10, 0x00
+	fr[8], fr[9], fr[10], fr[11] = byte(c>>24), byte(c>>16), byte(c>>8), byte(c)
+	fr[12], fr[13] = byte(len(info)/4>>8), byte(len(info)/4)
+	fr = append(append(fr, info...), 'p', 'a', 'y')
+	fr[0], fr[1], fr[2], fr[3] = 0, 0, byte((len(fr)-4)>>8), byte(len(fr)-4)
+	var fp ttheader.DecodeParam
+	if c%2 == 0 {
+		fp, err = ttheader.DecodeFromBytes(context.Background(), fr)
+	} else {
+		fr2 := bufiox.NewDefaultReader(&dataSource{data: fr, chunks: []int{5}})
+		fp, err = ttheader.Decode(context.Background(), fr2)
+		fr2.Release(nil)
+	}
+	if err != nil || fp.SeqID != int32(c) || fp.IntInfo[uint16(50+g)] != string([]byte{'v', byte('0' + c%10)}) || fp.StrInfo["k"] != string([]byte{byte('a' + g%26)}) || fp.PayloadLen != 3 {
+		ok = false
+	}
 	return ok
 }
 
@@ -626,7 +656,7 @@ func replayRace(c *Ctx, raw json.RawMessage) {
 }
 
 func checkC14(c *Ctx) {
-	c.rule = "MC: 3 goroutines x 2 pooled objects x span requests, every interleaving of Acquire / Release / CAS-lock / bump / slice-unlock (9 steps): exclusive ownership, reset on recycle, disjoint span regions, exclusive lock; TLC finds the violation when fields are not cleared before Put. APALACHE: the conjunction of these invariants plus a strengthening (Ind_Concurrency.tla) is inductive for every span size, request size and run length (base case, inductive step, negative control, non-vacuity probes). TLAPS: Proof_Concurrency.tla proves Spec => []IndInv for arbitrary sets of goroutines and objects (29 obligations; a negative control must fail). TRACE: stress runs (8..24 goroutines, create/use/release cycles of BufferReader, BufferWriter, SkipDecoder, BytesSkipDecoder, ReaderSkipDecoder, ttheader and Base codecs with the span allocator on, concurrent Get on a shared map, and the value-only helpers - exceptions with ids outside the default-message table, PrependError / errors.Is / message envelopes, unsafex, private string maps and unknown-field trees) with per-goroutine self-checking payloads over the poisoning pool double; the acquisition/release log (after Get / before Put, one mutex) must be enabled Acquire/Release actions and every self-check ok. RACE: the same driver built with -race against the real mcache, several seeds; any report is a violation."
+	c.rule = "MC: 3 goroutines x 2 pooled objects x span requests, every interleaving of Acquire / Release / CAS-lock / bump / slice-unlock (9 steps): exclusive ownership, reset on recycle, disjoint span regions, exclusive lock; TLC finds the violation when fields are not cleared before Put. APALACHE: the conjunction of these invariants plus a strengthening (Ind_Concurrency.tla) is inductive for every span size, request size and run length (base case, inductive step, negative control, non-vacuity probes). TLAPS: Proof_Concurrency.tla proves Spec => []IndInv for arbitrary sets of goroutines and objects (29 obligations; a negative control must fail). TRACE: stress runs (8..24 goroutines, create/use/release cycles of BufferReader, BufferWriter, SkipDecoder, BytesSkipDecoder, ReaderSkipDecoder, ttheader and Base codecs with the span allocator on, concurrent Get on a shared map, and the value-only helpers - exceptions with ids outside the default-message table, PrependError / errors.Is / message envelopes, unsafex, private string maps and unknown-field trees) with per-goroutine self-checking payloads over the poisoning pool double; the acquisition/release log (after Get / before Put, one mutex) must be enabled Acquire/Release actions and every self-check ok. RACE: the same driver built with -race against the real mcache, several seeds; any report is a violation. The stress also decodes hand-built foreign-peer TTHeader frames (transform ids, padding between sections) through both decoders."
 	c.MC("MC_Concurrency.tla", "MC_Concurrency.cfg", 8)
 	// unbounded safety (Apalache): IndInv of Ind_Concurrency.tla is inductive for every span size >= 1, every request
 	// size and runs of any length (3 goroutines, 3 objects); the same step fails when fields are not cleared before
